@@ -1,3 +1,39 @@
-(* placeholder until the C06 theorems land *)
-Lemma c06_placeholder : True. Proof. exact I. Qed.
-Print Assumptions c06_placeholder.
+(* C06 -- uncommitted and failed work leaves no trace. *)
+From Coq Require Import List NArith Bool.
+From Jamm Require Import Bytes Spec PL PLFacts PLProps SpecFacts.
+Import ListNotations.
+
+(* beginning a writer and abandoning it is the identity on the shared state (page ownership, free list,
+   pending lists, high-water mark, transaction counter, registered readers) *)
+Theorem C06_begin_rollback : forall s f p s', accept_all s [EBeginW f p; ERollback] = Some s' -> s' = s.
+Proof. exact begin_rollback_same. Qed.
+Print Assumptions C06_begin_rollback.
+
+(* any history without a commit or a reopen leaves live/free/pending/np/tx unchanged *)
+Theorem C06_no_commit_no_change : forall es s s',
+  Forall no_commit es -> accept_all s es = Some s' -> same_db s s'.
+Proof. exact no_commit_same_db. Qed.
+Print Assumptions C06_no_commit_no_change.
+
+(* reference semantics: every mutating call on a read-only transaction is refused with ReadOnlyTx and changes
+   nothing; (the library must return what the reference returns: checked on every run) *)
+Theorem C06_read_only_refused : forall t o, t_writable t = false -> is_mutator o = true -> o <> ODump ->
+  step_op t o = (t, RErr ReadOnlyTx).
+Proof. exact read_only_refused. Qed.
+Print Assumptions C06_read_only_refused.
+
+(* a call that returns an error leaves the transaction's view unchanged *)
+Theorem C06_error_no_change : forall t o t' e, step_op t o = (t', RErr e) -> t' = t.
+Proof. exact error_no_change. Qed.
+Print Assumptions C06_error_no_change.
+
+(* committing a read-only transaction is refused; the committed state is unchanged *)
+Theorem C06_ro_commit_refused : forall d t x, tlookup t (d_txs d) = Some x -> t_writable x = false ->
+  step d (CCommit t) = (mkDb (d_committed d) (tremove t (d_txs d)), RErr ReadOnlyTx).
+Proof. exact ro_commit_refused. Qed.
+(* dropping a transaction, and every call inside one, leaves the committed state unchanged *)
+Theorem C06_drop_no_change : forall d t, d_committed (fst (step d (CDrop t))) = d_committed d.
+Proof. exact drop_no_change. Qed.
+Theorem C06_op_no_commit_change : forall d t o, d_committed (fst (step d (COp t o))) = d_committed d.
+Proof. exact op_no_commit_change. Qed.
+Print Assumptions C06_op_no_commit_change.
